@@ -67,6 +67,8 @@ def main():
         has_glue = os.path.exists(os.path.join(paths.COQ, glue))
         targets = [r[:-2] + '.vo' for r in roots] + ([glue[:-2] + '.vo'] if has_glue else [])
         ok, log, cmd = build.make(targets)
+        if not ok and log.rstrip().endswith('TIMEOUT'):
+            ok, log, cmd = build.make(targets, timeout=3600)
         files = build.closure(roots)
         nst, names = build.statements(files)
         prove.update(obligations=nst, checker_cmd=cmd, files=files)
@@ -78,6 +80,8 @@ def main():
         for r in roots:
             if not r.startswith(('Props/', 'GenProps/')): continue
             aok, pairs, raw = build.assumptions(r)
+            if not aok and 'TIMEOUT' in raw[-20:]:
+                aok, pairs, raw = build.assumptions(r, timeout=1800)      # a loaded machine, not a broken proof: once more, longer
             if not aok and ok:
                 broken.append(dict(kind='assumptions', detail=raw[-1500:]))
             allowed = getattr(plugin, 'ALLOWED_AXIOMS', [])
